@@ -75,9 +75,12 @@ impl vstd::std_specs::convert::FromSpecImpl<Lambda> for VCell {
 }
 /// the code object behind the pointer that compile_lambda leaves in the enclosing bytecode ([.., MovImmediate, ptr, Acc, ClosureAcc])
 /// ends in `call_op(true); Ret`
-pub open spec fn closure_ends_in_tail_call(h: Heap, iof: Lambda) -> bool {
-    iof.bc@.len() >= 4 && exists|l: Lambda| #[trigger] lambda_cell(l) == heap_deref(h, iof.bc@[iof.bc@.len() - 3])
+pub open spec fn code_ends_in_tail_call(h: Heap, ptr: VCell) -> bool {
+    exists|l: Lambda| #[trigger] lambda_cell(l) == heap_deref(h, ptr)
         && l.bc@.len() >= 2 && l.bc@[l.bc@.len() - 2] == call_op(true) && l.bc@.last() == VCell::OpCode(OpCode::Ret)
+}
+pub open spec fn closure_ends_in_tail_call(h: Heap, iof: Lambda) -> bool {
+    iof.bc@.len() >= 4 && code_ends_in_tail_call(h, iof.bc@[iof.bc@.len() - 3])
 }
 
 // ---------------------------------------------------------------- assumed contracts: Cell accessors (cell.rs, one-line matches)
@@ -134,18 +137,20 @@ pub assume_specification [crate::vm::transform::Transform::keyword] (t: &crate::
 // (bodies outside what Verus ingests: closures capturing &mut self in compile_lambda, ...).  Only the frame is assumed:
 // they append to the bytecode.  Nothing is assumed about the tail flag.
 pub assume_specification [Vm::compile_quasiquote] (vm: &mut Vm, lambda: &mut Lambda, expr: &Cell, depth: usize) -> (r: Result<(), Error>)
-    ensures r is Ok ==> extends(*old(lambda), *final(lambda));
+    ensures r is Ok ==> extends(*old(lambda), *final(lambda)), final(vm).regs() == old(vm).regs();
 pub assume_specification [Vm::compile_set] (vm: &mut Vm, lambda: &mut Lambda, tail: bool, expr: &Cell) -> (r: Result<(), Error>)
-    ensures r is Ok ==> extends(*old(lambda), *final(lambda));
-pub assume_specification [Vm::compile_formal_arguments] (vm: &mut Vm, formal_args: &Cell) -> (r: Result<(Vec<VCell>, bool), Error>);
+    ensures r is Ok ==> extends(*old(lambda), *final(lambda)), final(vm).regs() == old(vm).regs();
+pub assume_specification [Vm::compile_formal_arguments] (vm: &mut Vm, formal_args: &Cell) -> (r: Result<(Vec<VCell>, bool), Error>) ensures final(vm).regs() == old(vm).regs();
 pub assume_specification<'a> [crate::vm::environment::free_symbols] (c: &'a Cell) -> (r: Result<std::collections::HashSet<&'a Cell>, Error>);
 pub assume_specification<'a> [crate::vm::environment::internally_defined_symbols] (c: &'a Cell) -> (r: Result<std::collections::HashSet<&'a Cell>, Error>);
 pub assume_specification [Lambda::new_from_iof] (args: Vec<VCell>, internally_defined: Vec<VCell>, iof: &Lambda, free_symbols: &[VCell], is_vararg: bool) -> (r: Lambda);
 pub assume_specification [Lambda::set_desc] (l: &mut Lambda, c: Cell) ensures final(l).bc == old(l).bc;
-/// macro expansion before compilation: some function of the machine and the datum
-pub uninterp spec fn transformed(vm: Vm, e: Cell) -> Cell;
+/// macro expansion before compilation: some function of heap, global environment and the datum (transform reads nothing else:
+/// symbol lookup in the heap, macro lookup in the globals, Transform::transform on the datum)
+pub uninterp spec fn transformed(h: Heap, g: crate::vm::environment::GlobalEnvironment, e: Cell) -> Cell;
+pub open spec fn vm_transformed(vm: Vm, e: Cell) -> Cell { transformed(vm.heap_spec(), vm.globenv_spec(), e) }
 pub assume_specification [Vm::transform] (vm: &mut Vm, expr: &Cell) -> (r: Result<Cell, Error>)
-    ensures r matches Ok(c) ==> c == transformed(*old(vm), *expr);
+    ensures r matches Ok(c) ==> c == vm_transformed(*old(vm), *expr), final(vm).regs() == old(vm).regs();
 
 /// index form of `extends`
 pub proof fn lemma_extends_index(a: Lambda, b: Lambda, i: int) requires extends(a, b), 0 <= i < a.bc@.len() ensures b.bc@[i] == a.bc@[i] {
@@ -159,6 +164,8 @@ pub proof fn lemma_extends_trans(a: Lambda, b: Lambda, c: Lambda) requires exten
 
 NODEC = '#[verifier::exec_allows_no_decreases_clause]'
 EXT = (P, 'r is Ok ==> extends(*old(lambda), *final(lambda))')
+# the compiler does not touch the machine registers (eval moves the instruction pointer back after compiling)
+REGS = (P, 'final(self).regs() == old(self).regs()')
 
 UNITS = [{
     # the two Lambda methods the compile contracts rest on, verified against their bodies
@@ -167,7 +174,8 @@ UNITS = [{
     'uses_types': ['VCell', 'Lambda'],
     'prelude': '''/// std: a Vec of a non-zero-sized type never holds more than isize::MAX elements (its allocation is at most isize::MAX bytes)
 #[verifier::external_body]
-pub proof fn axiom_vec_len(v: &Vec<VCell>) ensures v@.len() <= isize::MAX {}''',
+pub proof fn axiom_vec_len(v: &Vec<VCell>) ensures v@.len() <= isize::MAX {}
+pub assume_specification [crate::vm::environment::EnvironmentMap::new] () -> (r: crate::vm::environment::EnvironmentMap);''',
     'fns': {
         'impl Lambda::emit': {
             'props': P,
@@ -177,6 +185,8 @@ pub proof fn axiom_vec_len(v: &Vec<VCell>) ensures v@.len() <= isize::MAX {}''',
                 (P, 'final(self).args == old(self).args'),
             ],
         },
+        'impl Lambda::new': {'props': P, 'ensures': [(P, 'r.bc@.len() == 0')]},
+        'impl Lambda::set_top_level': {'props': P, 'ensures': [(P, 'final(self).bc == old(self).bc')]},
         'impl Lambda::argc': {'props': P, 'body_start': 'proof { axiom_vec_len(&self.args); }', 'ensures': [(P, 'r == self.args@.len()'), (P, 'r <= isize::MAX')]},
     },
 }, {
@@ -188,15 +198,15 @@ pub proof fn axiom_vec_len(v: &Vec<VCell>) ensures v@.len() <= isize::MAX {}''',
         # the emitter: an application compiled in tail position ends in TCALL, otherwise in CALL
         'impl Vm::compile_runtime_procedure_application': {
             'props': P, 'attrs': NODEC,
-            'ensures': [EXT, (P, 'r is Ok ==> ends_in_call(*final(lambda), tail)')],
-            'loops': {0: 'invariant extends(*old(lambda), *lambda), (n as int) + spine(*rest) <= spine(*expr), spine(*expr) < usize::MAX,'},
+            'ensures': [REGS, EXT, (P, 'r is Ok ==> ends_in_call(*final(lambda), tail)')],
+            'loops': {0: 'invariant self.regs() == old(self).regs(), extends(*old(lambda), *lambda), (n as int) + spine(*rest) <= spine(*expr), spine(*expr) < usize::MAX,'},
             'loop_count': 1,
             'body_start': 'proof { axiom_spine_fits(*expr); }',
         },
         # `if`: both branches inherit the flag of the whole form
         'impl Vm::compile_if': {
             'props': P, 'attrs': NODEC,
-            'ensures': [EXT, (P, 'r is Ok ==> if_compiled(*expr, tail, *old(lambda), *final(lambda))')],
+            'ensures': [REGS, EXT, (P, 'r is Ok ==> if_compiled(*expr, tail, *old(lambda), *final(lambda))')],
             'body_start': 'proof { axiom_into_self(); }',
             'inserts': [
                 {'anchor': 'lambda.emit(OpCode::Jnt);', 'where': 'before', 'text': 'let ghost l1 = *lambda;'},
@@ -262,24 +272,25 @@ pub proof fn axiom_vec_len(v: &Vec<VCell>) ensures v@.len() <= isize::MAX {}''',
                 reveal_strlit("quasiquote"); reveal_strlit("quote"); reveal_strlit("set!");
                 assert forall|t: &str| #[trigger] t@ == "if"@ implies t == "if" by { axiom_str_ext(t, "if"); }
             }''',
-            'ensures': [EXT,
+            'ensures': [REGS, EXT,
                         (P, 'r is Ok && rt_app(*expr) ==> ends_in_call(*final(lambda), tail)'),
                         (P, 'r is Ok && if_form(*expr) ==> if_compiled(*expr, tail, *old(lambda), *final(lambda))')],
         },
         'impl Vm::compile_expression': {
             'props': P, 'attrs': NODEC,
-            'ensures': [EXT,
+            'ensures': [REGS, EXT,
                         (P, 'r is Ok && rt_app(*expr) ==> ends_in_call(*final(lambda), tail)'),
                         (P, 'r is Ok && if_form(*expr) ==> if_compiled(*expr, tail, *old(lambda), *final(lambda))')],
         },
-        'impl Vm::compile_quote': {'props': P, 'ensures': [EXT]},
+        'impl Vm::compile_quote': {'props': P, 'ensures': [REGS, EXT]},
         # procedure bodies: the last body expression is compiled with the tail flag set, so a body ending in a call ends in TCALL; Ret
         'impl Vm::compile_lambda': {
             'props': P, 'attrs': NODEC + '\n#[verifier::loop_isolation(false)]',
-            'ensures': [(P, 'r is Ok ==> extends(*old(iof), *final(iof))'),
+            'ensures': [REGS, (P, 'r is Ok ==> extends(*old(iof), *final(iof))'),
                         (P, 'r is Ok ==> ((proc_tail_expr(*expr) matches Some(e) && rt_app(e)) ==> closure_ends_in_tail_call(final(self).heap_spec(), *final(iof)))')],
             'body_start': 'proof { axiom_into_self(); }',
             'loops': {0: '''invariant
+                    self.regs() == old(self).regs(),
                     (*body is Pair) ==> last_tail(*body) == proc_tail_expr(*expr),
                     !(*body is Pair) ==> ((proc_tail_expr(*expr) matches Some(e) && rt_app(e)) ==> ends_in_call(lambda, true)),'''},
             'loop_count': 1,
@@ -293,15 +304,52 @@ pub proof fn axiom_vec_len(v: &Vec<VCell>) ensures v@.len() <= isize::MAX {}''',
             ],
         },
         # frame only: these append to the bytecode (their tail behaviour: they never emit a call themselves)
-        'impl Vm::compile_define': {'props': P, 'attrs': NODEC, 'ensures': [EXT]},
-        'impl Vm::compile_define_syntax': {'props': P, 'ensures': [EXT]},
-        'impl Vm::compile_symbol_expression': {'props': P, 'ensures': [EXT]},
+        'impl Vm::compile_define': {'props': P, 'attrs': NODEC, 'ensures': [REGS, EXT]},
+        'impl Vm::compile_define_syntax': {'props': P, 'ensures': [REGS, EXT]},
+        'impl Vm::compile_symbol_expression': {'props': P, 'ensures': [REGS, EXT]},
         # entry: the flag reaches the expression that is actually compiled (the macro-expanded one)
         'impl Vm::compile': {
             'props': P,
-            'ensures': [EXT,
-                        (P, 'r is Ok && rt_app(transformed(*old(self), *expr)) ==> ends_in_call(*final(lambda), tail)'),
-                        (P, 'r is Ok && if_form(transformed(*old(self), *expr)) ==> if_compiled(transformed(*old(self), *expr), tail, *old(lambda), *final(lambda))')],
+            'ensures': [REGS, EXT,
+                        (P, 'r is Ok && rt_app(vm_transformed(*old(self), *expr)) ==> ends_in_call(*final(lambda), tail)'),
+                        (P, 'r is Ok && if_form(vm_transformed(*old(self), *expr)) ==> if_compiled(vm_transformed(*old(self), *expr), tail, *old(lambda), *final(lambda))')],
+        },
+    },
+}, {
+    # (eval expr): the thunk built for the datum is compiled with the tail flag set (calls made through eval from a tail position)
+    'name': 'builtin_procedure_eval',
+    'file': 'src/vm/builtin/procedure.rs',
+    'uses_types': ['CellT', 'OpCodeT', 'VCell', 'Error', 'Heap', 'Lambda', 'Stack'],
+    'prelude': r'''
+use crate::vm::compile::{rt_app, vm_transformed, transformed, code_ends_in_tail_call, heap_deref, lambda_cell, call_op, ends_in_call, axiom_lambda_cell, axiom_into_self};
+use crate::vm::stack::Stack; use crate::vm::heap::Heap;
+/// the (here opaque) stack: its top cell and what is left after popping it
+pub uninterp spec fn stack_top(s: Stack) -> VCell;
+pub uninterp spec fn stack_popped(s: Stack) -> Stack;
+pub uninterp spec fn heap_value(h: Heap, v: VCell) -> Cell;
+/// popping touches the stack only
+pub open spec fn pops(old: Vm, new: Vm) -> bool {
+    new.stack_spec() == stack_popped(old.stack_spec()) && new.heap_spec() == old.heap_spec() && new.globenv_spec() == old.globenv_spec() && new.regs() == old.regs()
+}
+pub assume_specification [crate::vm::builtin::pop_argc] (vm: &mut Vm, min: usize, max: Option<usize>, proc: &str) -> (r: Result<usize, Error>)
+    ensures r is Ok ==> pops(*old(vm), *final(vm));
+pub assume_specification [Vm::pop] (vm: &mut Vm) -> (r: Result<VCell, Error>)
+    ensures r matches Ok(c) ==> c == stack_top(old(vm).stack_spec()) && pops(*old(vm), *final(vm));
+pub assume_specification [Heap::get_as_cell] (h: &Heap, v: &VCell) -> (r: Cell) ensures r == heap_value(*h, *v);
+pub assume_specification<T: Into<VCell> + std::fmt::Display> [Stack::push] (s: &mut Stack, v: T);
+/// the datum eval compiles: the cell under the argument count, read through the heap
+pub open spec fn eval_datum(vm: Vm) -> Cell { heap_value(vm.heap_spec(), stack_top(stack_popped(vm.stack_spec()))) }
+''',
+    'fns': {
+        '::eval': {
+            'props': P,
+            'requires': ['old(vm).regs().1.1 >= 1'],
+            'body_start': 'proof { axiom_into_self(); }',
+            'ensures': [(P, 'r matches Ok(c) ==> (rt_app(vm_transformed(*old(vm), eval_datum(*old(vm)))) ==> code_ends_in_tail_call(final(vm).heap_spec(), c))')],
+            'inserts': [
+                {'anchor': 'lambda.emit(OpCode::Ret);', 'where': 'after', 'text': 'let ghost inner = lambda; proof { axiom_lambda_cell(inner); }'},
+                {'anchor': 'Ok(lambda)', 'where': 'before', 'text': 'proof { if rt_app(vm_transformed(*old(vm), eval_datum(*old(vm)))) { assert(lambda_cell(inner) == heap_deref(vm.heap_spec(), lambda)); } }'},
+            ],
         },
     },
 }]
